@@ -12,7 +12,7 @@ pub struct BTreeMap<K, V> {
     items: Vec<(K, V)>,
 }
 
-impl<K: Ord + Copy, V> BTreeMap<K, V> {
+impl<K: Ord, V> BTreeMap<K, V> {
     pub fn new() -> Self {
         Self { items: Vec::new() }
     }
@@ -83,7 +83,7 @@ pub struct Entry<'a, K, V> {
     map: &'a mut BTreeMap<K, V>,
     key: K,
 }
-impl<'a, K: Ord + Copy, V> Entry<'a, K, V> {
+impl<'a, K: Ord, V> Entry<'a, K, V> {
     pub fn or_insert_with<F: FnOnce() -> V>(self, f: F) -> &'a mut V {
         match self.map.pos(&self.key) {
             Ok(i) => &mut self.map.items[i].1,
@@ -105,7 +105,7 @@ impl<K, V> IntoIterator for BTreeMap<K, V> {
         self.items.into_iter()
     }
 }
-impl<K: Ord + Copy, V> FromIterator<(K, V)> for BTreeMap<K, V> {
+impl<K: Ord, V> FromIterator<(K, V)> for BTreeMap<K, V> {
     fn from_iter<T: IntoIterator<Item = (K, V)>>(iter: T) -> Self {
         let mut m = Self::new();
         for (k, v) in iter {
@@ -119,7 +119,7 @@ impl<K: Ord + Copy, V> FromIterator<(K, V)> for BTreeMap<K, V> {
 pub struct BTreeSet<K> {
     items: Vec<K>,
 }
-impl<K: Ord + Copy> BTreeSet<K> {
+impl<K: Ord> BTreeSet<K> {
     pub fn new() -> Self {
         Self { items: Vec::new() }
     }
@@ -164,7 +164,7 @@ impl<K> IntoIterator for BTreeSet<K> {
         self.items.into_iter()
     }
 }
-impl<K: Ord + Copy> FromIterator<K> for BTreeSet<K> {
+impl<K: Ord> FromIterator<K> for BTreeSet<K> {
     fn from_iter<T: IntoIterator<Item = K>>(iter: T) -> Self {
         let mut m = Self::new();
         for k in iter {
